@@ -74,6 +74,15 @@ func mutate(r *rig.Rng, s *scene, c *rig.Ctx) (ws []store) {
 			}
 		case 4:
 			s.lcdc ^= uint8(1) << uint(r.PickInt([]int{1, 3, 4, 5, 6}))
+			if r.Chance(1, 2) {
+				// LCDC passes through other values first (background off, 8x16 objects, window
+				// bit flipped ...): only the value in force while the frame is drawn counts
+				set(0xff40, 0x80|r.U8()&0x7f)
+				if r.Bool() {
+					set(0xff40, s.lcdc&^0x21)
+				}
+				c.Count("sequence_transient_lcdc_values", 1)
+			}
 			set(0xff40, s.lcdc)
 		case 5:
 			switch r.Intn(3) {
